@@ -46,8 +46,9 @@ def _work_dir() -> str:
 
 def add_markers(spec: dict, max_tick: int) -> dict:
     spec = dict(spec)
-    spec["song"] = [["Name", '"first marker"'], ["Resolution", str(spec["res"])],
-                    ["Charter", '"last marker"']]
+    extras = [x for x in (spec.get("song") or []) if x[0] not in ("Name", "Charter", "Resolution")]
+    spec["song"] = [["Name", '"first marker"']] + extras[:len(extras) // 2] + [["Resolution", str(spec["res"])]] \
+        + extras[len(extras) // 2:] + [["Charter", '"last marker"']]
     spec["sync"] = list(spec["sync"]) + [[max_tick, "A", 123456789]]
     spec["events"] = [[0, "first_marker"]] + list(spec["events"]) + [[max_tick, "section last_marker"]]
     tracks = {}
